@@ -8,13 +8,15 @@ TRUST = ("Trusted base: rustc nightly front end and MIR construction (the analys
          "listed with reasons in the rule sources and evidence. Decides the named structural clauses only, never the behaviour on all inputs.")
 
 CLAIMS = {
- "C06": ("absorb-site dataflow (P-VAR over MIR: drop flags + discriminant refinement) + sibling agreement of closure runners",
+ "C06": ("absorb-site dataflow (P-VAR over MIR: drop flags + discriminant refinement) + sibling agreement of closure runners + P-VAR on child-evaluation Results + who-may-destructure",
          "R06a: no feasible drop/absorbing-combinator/unreviewed-move of an expression-originated ExpressionError can still hold `Return`; "
-         "R06b: Return->value conversion exists in Runtime::resolve and in every closure Runner entry point. Necessary condition of C06 "
-         "(a swallowed/re-labelled Return breaks it for some program); does not decide the returned value or absence of later effects.", "§4 C06"),
+         "R06b: Return->value conversion exists in Runtime::resolve and in every closure Runner entry point; R06c: inside every expression's resolve a child "
+         "is evaluated only while all earlier children succeeded (nothing of the same expression runs after a return; P-VAR on the children's Results); "
+         "R06d: the Return payload is taken out only in Runtime::resolve and Runner::call. Necessary conditions of C06; the returned value is not decided.", "§4 C06"),
  "C07": ("absorb-site dataflow (P-VAR over MIR) + outcome-mapping check in Runtime::resolve",
          "R07a: no feasible absorb site of an expression-originated ExpressionError can still hold `Abort`; R07b: Runtime::resolve maps Abort "
-         "to Terminate::Abort and never to Error/Ok. This is essentially the whole interception mechanism; message contents are not decided.", "§4 C07"),
+         "to Terminate::Abort and never to Error/Ok; R07c: inside every expression's resolve no child is evaluated after an earlier child aborted. "
+         "This is essentially the whole interception mechanism; message contents are not decided.", "§4 C07"),
  "C13": ("must-pass-through (release on all exits) over MIR CFG + who-may-call + compile-time twin pairing",
          "R13a: each closure::insert is post-dominated on all non-unwind paths by closure::cleanup of the same ident with the saved value; "
          "R13b: only Runner may swap variables; R13c: compile_closure restores/removes closure variables before every exit.", "§4 C13"),
